@@ -193,6 +193,7 @@ func hooksimExec(r *Run) {
 		case 4:
 			w.Restart()
 			restarts++
+			r.Fault("restart")
 			r.Logf("restart")
 			for _, u := range hookURLs {
 				s.queryURL(u, "after-restart")
@@ -396,6 +397,9 @@ func (s *hookSim) notify() (deactivated, resets int) {
 		}
 		m.attempted = true
 		m.lastTime = now
+		if oc != oc200 {
+			r.Fault([]string{"", "delivery-answered-503", "delivery-transport-error", "delivery-unreadable-body"}[oc])
+		}
 		switch oc {
 		case oc200:
 			if m.count > 0 {
